@@ -22,6 +22,7 @@ RULE = (
     "(possibly_)undefined_name reported, unbound not in liberal => not reported; dynamic subset strict subset liberal "
     "is asserted for every skeleton (harness error otherwise). Non-trivial = skeleton with a compound whose use "
     "has more than one reaching state (distinct by source)."
+    ' Also: the variable as a module-level name declared `global` (bound at module level or not), with nested readers / setters; a break / continue leaving a with / try part directly inside its loop (exhaustive family); signature tokens JT:/LIN: (jump through / loop inside a with or try part) and UL:/DL: (position relative to a loop with else).'
 )
 ASSUMPTIONS = [
     "uses that no path of the liberal CFG reaches (dead code) are skipped",
